@@ -193,6 +193,9 @@ func (r *Run) Finish() {
 	if _, ok := cov["samples"]; !ok {
 		cov["samples"] = r.samples
 	}
+	// the evidence file is a record to read, not an archive: a sample that embeds a multi-megabyte input
+	// (C19's padded files) is written with the middle of every long string elided; replays keep full cases
+	cov["samples"] = compactStrings(cov["samples"], 4096)
 	if r.capHit != "" {
 		cov["exhaustive"] = false
 		cov["cap_hit"] = r.capHit
@@ -249,6 +252,45 @@ func (r *Run) Finish() {
 		os.Exit(1)
 	}
 	os.Exit(0)
+}
+
+// compactStrings returns v as generic JSON data in which every string longer than max bytes keeps its first
+// and last max/2 bytes around a note giving the elided length and the SHA-256 of the whole string.
+func compactStrings(v any, max int) any {
+	b, err := json.Marshal(v)
+	if err != nil {
+		return v
+	}
+	var g any
+	dec := json.NewDecoder(strings.NewReader(string(b)))
+	dec.UseNumber()
+	if err := dec.Decode(&g); err != nil {
+		return v
+	}
+	var walk func(x any) any
+	walk = func(x any) any {
+		switch t := x.(type) {
+		case string:
+			if len(t) <= max {
+				return t
+			}
+			h := sha256.Sum256([]byte(t))
+			head, tail := strings.ToValidUTF8(t[:max/2], ""), strings.ToValidUTF8(t[len(t)-max/2:], "")
+			return fmt.Sprintf("%s ...[%d of %d bytes elided in the evidence file; sha256 of the whole string %s]... %s", head, len(t)-len(head)-len(tail), len(t), hex.EncodeToString(h[:]), tail)
+		case []any:
+			for i := range t {
+				t[i] = walk(t[i])
+			}
+			return t
+		case map[string]any:
+			for k := range t {
+				t[k] = walk(t[k])
+			}
+			return t
+		}
+		return x
+	}
+	return walk(g)
 }
 
 func (r *Run) writeReplay(v *Violation) string {
